@@ -462,3 +462,58 @@ func TestC17Large(t *testing.T) {
 		}
 	}
 }
+
+// TestC17Huge: "for every buffer length" - also one that does not fit in 32 bits. A single
+// buffer of 2 GiB + 5 bytes (anonymous mapping, zero-filled, so the masked content is the key
+// pattern itself and can be checked without a second copy), every implementation, the buffer
+// starting at an odd address; compared at the ends, around every power of two from 2^16 up, and
+// at a stride of 1 MiB + 13. An implementation that looks at the low 32 bits of the length
+// masks a handful of bytes and returns a plausible key. Skipped (and recorded as skipped) when
+// the mapping cannot be had.
+func TestC17Huge(t *testing.T) {
+	rec := evid.For("C17")
+	n := 2<<30 + 5
+	mem, err := syscall.Mmap(-1, 0, n+64, syscall.PROT_READ|syscall.PROT_WRITE, syscall.MAP_ANON|syscall.MAP_PRIVATE)
+	if err != nil {
+		rec.Class("huge-buffer-skipped-no-memory", 1)
+		t.Logf("cannot map %d bytes: %v", n, err)
+		return
+	}
+	defer syscall.Munmap(mem)
+	key := uint32(0xa1b2c3d4)
+	kb := keyBytes(key)
+	for _, im := range maskImpls() {
+		clear(mem) // zeros: the masked buffer is the key pattern itself
+		buf := mem[1 : 1+n] // odd start address
+		got := im.f(buf, key)
+		_, wantKey := c17Oracle(make([]byte, n%4), key) // the rotation depends on the length mod 4 only
+		pass := 1
+		wantAt := func(i int) byte { return kb[i%4] }
+		var idx []int
+		for i := 0; i < 300; i++ {
+			idx = append(idx, i, n-1-i)
+		}
+		for p := 16; p <= 31; p++ {
+			for d := -70; d <= 70; d++ {
+				if j := 1<<p + d; j >= 0 && j < n {
+					idx = append(idx, j)
+				}
+			}
+		}
+		for j := 0; j < n; j += 1<<20 + 13 {
+			idx = append(idx, j)
+		}
+		for _, i := range idx {
+			if buf[i] != wantAt(i) {
+				failCase(t, "C17", map[string]any{"impl": im.name, "len": n, "index": i}, "%s on a buffer of %d bytes: byte %d is %#x, want %#x (pass %d over a zero-filled buffer)", im.name, n, i, buf[i], wantAt(i), pass)
+			}
+		}
+		if mem[0] != 0 || mem[1+n] != 0 {
+			failCase(t, "C17", map[string]any{"impl": im.name, "len": n}, "%s touched a byte outside a buffer of %d bytes", im.name, n)
+		}
+		if got != wantKey {
+			failCase(t, "C17", map[string]any{"impl": im.name, "len": n}, "%s on %d bytes returned key %#08x, want %#08x", im.name, n, got, wantKey)
+		}
+		rec.Case(true, fmt.Sprintf("huge|%s|%d", im.name, n), "buffer-longer-than-2^31")
+	}
+}
